@@ -40,7 +40,8 @@ with open(os.path.join(ROOT, "README.md"), "w") as f:
             "(2) runs the twenty quick checks of a copy of /verif against the scratch copy and records which report a\n"
             "violation, with a concrete failing input or only through a broken correspondence (`no-failing-input-found`).\n"
             "Nothing is ever applied to /repo. Regenerate this table with `python3 tools/seeded_table.py`; re-evaluate with\n"
-            "`sh tools/evalall.sh [name ...]`. Patches A/B were written against /repo at `5f37012`, C/D/E/F/G/H/J/K at `d74872d`.\n\n"
+            "`sh tools/evalall.sh [name ...]`. Patches A/B were written against /repo at `5f37012`, C/D/E/F/G/H/J/K/L/M at `d74872d`; after the repair D8 (`a7f6599`) rewrote `options.try`, the five patches that touch it\n"
+            "(C10-A, C10-C, C12-B — the same idea from three authors —, C12-C, C12-F) were re-based by hand, the originals are kept as `patch.d74872d.diff`.\n\n"
             "| change | file(s) | confirmed | caught with a concrete input by | caught only as a broken correspondence by | its own check says |\n"
             "|---|---|---|---|---|---|\n")
     for name, own, title, files, conf, concrete, only_tie, detail in rows:
